@@ -277,4 +277,261 @@ theorem de_fuel_agree (env : Env) : ∀ (n m : Nat),
             apply AM.bind (AM.refl _); intro _ s3
             exact AM.bind (ihA _ _ _ _) (fun v s4 => ihF _ _ _ _)
 
+
+/-! ## more budget never starves a run that was not starved -/
+
+/-- the run with the smaller budget is starved, or the two runs end the same way -/
+def LEm {α : Type} (x y : R α) : Prop := x = .err .limit ∨ x = y
+
+theorem LEm.refl {α : Type} (x : R α) : LEm x x := Or.inr rfl
+theorem LEm.left {α : Type} (y : R α) : LEm (.err .limit) y := Or.inl rfl
+
+theorem LEm.bind {α β : Type} {x y : R α} {f g : α → St → R β} (hxy : LEm x y) (hfg : ∀ a s, LEm (f a s) (g a s)) :
+    LEm (x.bind f) (y.bind g) := by
+  rcases hxy with h | h
+  · subst h; exact LEm.left _
+  · subst h
+    cases x with
+    | ok a s => exact hfg a s
+    | sub d q => exact LEm.refl _
+    | err k => exact LEm.refl _
+    | panic p => exact LEm.refl _
+
+theorem LEm.map {α β : Type} {x y : R α} (f : α → β) (hxy : LEm x y) : LEm (x.map f) (y.map f) :=
+  LEm.bind hxy (fun _ _ => LEm.refl _)
+
+theorem LEm.ite {α : Type} (c : Prop) [Decidable c] {a b a' b' : R α} (h1 : LEm a b) (h2 : LEm a' b') :
+    LEm (if c then a else a') (if c then b else b') := by
+  split
+  · exact h1
+  · exact h2
+
+theorem trace_succ (env : Env) : ∀ (n : Nat) (t x : Ty), env.trace n t = some x → env.trace (n + 1) t = some x := by
+  intro n
+  induction n with
+  | zero => intro t x h; simp [Env.trace] at h
+  | succ n ih =>
+    intro t x h
+    cases t with
+    | var v =>
+      simp only [Env.trace] at h ⊢
+      cases hf : env.find v with
+      | none => simp [hf] at h
+      | some d => simp only [hf] at h ⊢; exact ih d x h
+    | _ => simp only [Env.trace] at h ⊢; exact h
+
+theorem ofOpt_trace_le (env : Env) (n : Nat) (t : Ty) (s : St) :
+    LEm (ofOpt (env.trace n t) .limit s) (ofOpt (env.trace (n + 1) t) .limit s) := by
+  cases h1 : env.trace n t with
+  | none => exact LEm.left _
+  | some a => rw [trace_succ env n t a h1]; exact LEm.refl _
+
+theorem unroll_le (env : Env) (n : Nat) (w e : Ty) (st : St) : LEm (unroll env n w e st) (unroll env (n + 1) w e st) := by
+  unfold unroll
+  apply LEm.bind
+  · split
+    · exact LEm.bind (LEm.refl _) (fun _ s => ofOpt_trace_le env n e s)
+    · exact LEm.refl _
+  · intro e' s1
+    split
+    · exact LEm.bind (LEm.refl _) (fun _ s2 => LEm.map _ (ofOpt_trace_le env n w s2))
+    · exact LEm.refl _
+
+theorem iterV_le (f g : St → R Val) (h : ∀ s, LEm (f s) (g s)) : ∀ (k : Nat) (s : St), LEm (iterV f k s) (iterV g k s) := by
+  intro k
+  induction k with
+  | zero => intro s; exact LEm.refl _
+  | succ k ih =>
+    intro s
+    unfold iterV
+    exact LEm.bind (h s) (fun v s' => LEm.map _ (ih s'))
+
+theorem deOptCase_le (env : Env) (n : Nat) (r1 r2 : Ty → Ty → St → R Val) (hr : ∀ w e s, LEm (r1 w e s) (r2 w e s))
+    (w e2 : Ty) (s1 : St) : LEm (deOptCase env n r1 w e2 s1) (deOptCase env (n + 1) r2 w e2 s1) := by
+  unfold deOptCase
+  split
+  · exact LEm.refl _
+  · exact LEm.refl _
+  · cases s1.input with
+    | nil => exact LEm.refl _
+    | cons b rest =>
+      simp only []
+      exact LEm.ite _ (LEm.refl _) (LEm.ite _ (hr _ _ _) (LEm.refl _))
+  · cases h1 : env.trace n e2 with
+    | none => exact LEm.left _
+    | some a => rw [trace_succ env n e2 a h1]; exact hr _ _ _
+
+theorem deVecCase_le (env : Env) (vis : Visitor) (n : Nat) (a1 a2 : Ty → Ty → St → R Val) (i1 i2 : Ty → St → R Val)
+    (ha : ∀ w e s, LEm (a1 w e s) (a2 w e s)) (hi : ∀ w s, LEm (i1 w s) (i2 w s)) (w ee : Ty) (s1 : St) :
+    LEm (deVecCase env vis n a1 i1 w ee s1) (deVecCase env vis (n + 1) a2 i2 w ee s1) := by
+  unfold deVecCase
+  cases w with
+  | vec ww =>
+    simp only []
+    cases h1 : env.trace n ww with
+    | none => exact LEm.left _
+    | some x =>
+      rw [trace_succ env n ww x h1]
+      simp only []
+      apply LEm.bind (LEm.refl _)
+      intro k s2
+      split
+      · exact LEm.refl _
+      · split
+        · exact LEm.refl _
+        · apply LEm.map
+          apply iterV_le
+          intro s
+          apply LEm.bind (LEm.refl _)
+          intro _ s'
+          exact LEm.ite _ (hi _ _) (ha _ _ _)
+  | _ => exact LEm.refl _
+
+theorem deVariantCase_le (vis : Visitor) (a1 a2 : Ty → Ty → St → R Val) (i1 i2 : Ty → St → R Val)
+    (ha : ∀ w e s, LEm (a1 w e s) (a2 w e s)) (hi : ∀ w s, LEm (i1 w s) (i2 w s)) (w : Ty) (efs : Fields) (s1 : St) :
+    LEm (deVariantCase vis a1 i1 w efs s1) (deVariantCase vis a2 i2 w efs s1) := by
+  unfold deVariantCase
+  cases w with
+  | variant wfs =>
+    simp only []
+    apply LEm.bind (LEm.refl _)
+    intro idx s2
+    split
+    · exact LEm.refl _
+    · split
+      · exact LEm.refl _
+      · apply LEm.bind (LEm.refl _); intro _ s3
+        apply LEm.bind (LEm.refl _); intro _ s4
+        refine LEm.ite _ (LEm.refl _) ?_
+        apply LEm.bind (LEm.refl _); intro _ s5
+        exact LEm.ite _ (LEm.map _ (hi _ _)) (LEm.map _ (ha _ _ _))
+  | _ => exact LEm.refl _
+
+theorem deAnyBody_le (env : Env) (vis : Visitor) (n : Nat)
+    (a1 a2 : Ty → Ty → St → R Val) (i1 i2 : Ty → St → R Val) (r1 r2 : Ty → Ty → St → R Val)
+    (f1 f2 : List FieldStep → St → List (Label × Val) → R Val)
+    (ha : ∀ w e s, LEm (a1 w e s) (a2 w e s)) (hi : ∀ w s, LEm (i1 w s) (i2 w s)) (hr : ∀ w e s, LEm (r1 w e s) (r2 w e s))
+    (hf : ∀ steps s acc, LEm (f1 steps s acc) (f2 steps s acc)) (w e : Ty) (st : St) :
+    LEm (deAnyBody env vis n a1 i1 r1 f1 w e st) (deAnyBody env vis (n + 1) a2 i2 r2 f2 w e st) := by
+  unfold deAnyBody
+  cases e with
+  | prim p =>
+    cases p <;> simp only [] <;> try (exact LEm.refl _)
+    apply LEm.bind
+    · exact LEm.ite _ (hi _ _) (LEm.refl _)
+    · intro _ s; exact LEm.refl _
+  | principal => exact LEm.refl _
+  | opt e2 =>
+    simp only []
+    exact LEm.bind (LEm.refl _) (fun _ s1 => deOptCase_le env n r1 r2 hr w e2 s1)
+  | vec ee =>
+    simp only []
+    exact LEm.ite _ (LEm.refl _) (LEm.bind (LEm.refl _) (fun _ s1 => deVecCase_le env vis n a1 a2 i1 i2 ha hi w ee s1))
+  | record efs =>
+    simp only []
+    apply LEm.bind (LEm.refl _)
+    intro _ s1
+    split
+    · exact hf _ _ _
+    · exact LEm.refl _
+  | variant efs =>
+    simp only []
+    exact LEm.bind (LEm.refl _) (fun _ s1 => deVariantCase_le vis a1 a2 i1 i2 ha hi w efs s1)
+  | service ms => exact LEm.refl _
+  | func a r md => exact LEm.refl _
+  | future => exact LEm.refl _
+  | var x => exact LEm.refl _
+  | knot k => exact LEm.refl _
+  | unknown => exact LEm.refl _
+  | cls a t => exact LEm.refl _
+
+/-- **more depth budget never starves a run that was not starved**, and never changes its outcome -/
+theorem de_fuel_le (env : Env) : ∀ (n : Nat),
+    (∀ vis w e s, LEm (deAny env vis n w e s) (deAny env vis (n + 1) w e s)) ∧
+    (∀ w s, LEm (deIgnored env n w s) (deIgnored env (n + 1) w s)) ∧
+    (∀ vis w e s, LEm (recoverable env vis n w e s) (recoverable env vis (n + 1) w e s)) ∧
+    (∀ vis steps s acc, LEm (deFields env vis n steps s acc) (deFields env vis (n + 1) steps s acc)) := by
+  intro n
+  induction n with
+  | zero =>
+    refine ⟨?_, ?_, ?_, ?_⟩
+    · intro vis w e s; rw [deAny_zero]; exact LEm.left _
+    · intro w s; rw [deIgnored_zero]; exact LEm.left _
+    · intro vis w e s; rw [recoverable_zero]; exact LEm.left _
+    · intro vis steps s acc; rw [deFields_zero]; exact LEm.left _
+  | succ n ih =>
+    obtain ⟨ihA, ihI, ihR, ihF⟩ := ih
+    refine ⟨?_, ?_, ?_, ?_⟩
+    · intro vis w0 e0 s
+      rw [deAny_succ, deAny_succ]
+      apply LEm.bind (unroll_le env n w0 e0 s)
+      intro we st
+      exact deAnyBody_le env vis n _ _ _ _ _ _ _ _ (ihA vis) ihI (ihR vis) (ihF vis) we.1 we.2 st
+    · intro w s
+      rw [deIgnored_succ, deIgnored_succ]
+      exact LEm.bind (ihA _ _ _ _) (fun _ _ => LEm.refl _)
+    · intro vis w e s
+      rw [recoverable_succ, recoverable_succ]
+      have hin : LEm (if vis = .ignored then deIgnored env n w s else deAny env vis n w e s)
+          (if vis = .ignored then deIgnored env (n + 1) w s else deAny env vis (n + 1) w e s) :=
+        LEm.ite _ (ihI _ _) (ihA _ _ _ _)
+      rcases hin with h | h
+      · rw [h]; exact LEm.left _
+      · rw [h]
+        cases (if vis = .ignored then deIgnored env (n + 1) w s else deAny env vis (n + 1) w e s) with
+        | ok v s' => exact LEm.refl _
+        | sub d q =>
+          simp only []
+          exact LEm.bind (LEm.refl _) (fun _ s1 => LEm.map _ (ihI _ _))
+        | err k => exact LEm.refl _
+        | panic p => exact LEm.refl _
+    · intro vis steps s acc
+      cases steps with
+      | nil => unfold deFields; exact LEm.refl _
+      | cons step rest =>
+        unfold deFields
+        apply LEm.bind (LEm.refl _)
+        intro _ s1
+        cases step with
+        | both l et wt =>
+          simp only []
+          apply LEm.bind (LEm.refl _); intro _ s2
+          apply LEm.bind (LEm.refl _); intro _ s3
+          apply LEm.bind
+          · exact LEm.ite _ (ihI _ _) (ihA _ _ _ _)
+          · intro v s4; exact ihF _ _ _ _
+        | expectOnly l et =>
+          simp only []
+          cases h1 : env.trace n et with
+          | none => exact LEm.left _
+          | some a =>
+            rw [trace_succ env n et a h1]
+            simp only []
+            split
+            · exact LEm.refl _
+            · apply LEm.bind (LEm.refl _); intro _ s2
+              apply LEm.bind (LEm.refl _); intro _ s3
+              exact LEm.bind (ihA _ _ _ _) (fun v s4 => ihF _ _ _ _)
+        | expectTail l et =>
+          simp only []
+          apply LEm.bind (LEm.refl _); intro _ s2
+          apply LEm.bind (LEm.refl _); intro _ s3
+          exact LEm.bind (ihA _ _ _ _) (fun v s4 => ihF _ _ _ _)
+        | wireOnly wt =>
+          simp only []
+          apply LEm.bind (LEm.refl _); intro _ s2
+          apply LEm.bind (LEm.refl _); intro _ s3
+          exact LEm.bind (ihA _ _ _ _) (fun v s4 => ihF _ _ _ _)
+
+/-- a run that is not starved keeps its outcome at every larger budget -/
+theorem deAny_stable (env : Env) (vis : Visitor) (w e : Ty) (s : St) (n : Nat) (r : R Val)
+    (h : deAny env vis n w e s = r) (hr : r ≠ .err .limit) : ∀ d, deAny env vis (n + d) w e s = r := by
+  intro d
+  induction d with
+  | zero => exact h
+  | succ d ih =>
+    rcases (de_fuel_le env (n + d)).1 vis w e s with h1 | h1
+    · rw [ih] at h1; exact absurd h1 hr
+    · rw [← Nat.add_assoc, ← h1]; exact ih
+
 end Candid.De
